@@ -290,7 +290,6 @@ func InjectNil(p proto.Message, num int) bool {
 	return false
 }
 
-
 // InjectNilOneof makes the oneof that fd belongs to hold fd's wrapper with a nil message inside (a state plain Go code
 // builds with &T_Member{}). fd must be a oneof member of message kind.
 func InjectNilOneof(p proto.Message, fd protoreflect.FieldDescriptor) bool {
